@@ -8,8 +8,9 @@ import json
 class Facts:
     def __init__(self, doc):
         from .normalize import (canonicalize_generics, transparent_helpers, canonical_apis, expand_combinators, eliminate_try,
-                                thread_known_discriminants, expand_int_try_from, expand_for_each)
+                                thread_known_discriminants, expand_int_try_from, expand_for_each, pinned_field_names)
         doc = canonicalize_generics(doc)
+        doc = pinned_field_names(doc)
         doc = transparent_helpers(doc)
         doc = canonical_apis(doc)
         doc = expand_int_try_from(doc)
